@@ -1,6 +1,11 @@
 ------------------------------ MODULE StoreMC ------------------------------
 EXTENDS Store
 MCKeys == {"k1", "k2", "k3"}
+MCKeys2 == {"k1", "k3"}          \* quick: one nf-4 and one nf-5 point; approx ambiguity is covered by the 3-key configs
+MCNfOf2 == [k \in MCKeys2 |-> IF k = "k3" THEN 5 ELSE 4]
 MCNfOf == [k \in MCKeys |-> IF k = "k3" THEN 5 ELSE 4]
 MCCloseTo == {{"k1", "k2"}}
+(* exploration bound for the exhaustive configs: the second archive holds at most one point *)
+BoundNoCopy == ~arc2.exists
+BoundCopy == Cardinality(arc2.hdr) <= 1 /\ arc2.meta = "m0"
 =============================================================================
